@@ -179,8 +179,18 @@ pub fn check_req(c: &ReqCase) -> Outcome {
             }
         },
         Req::V5BadAtyp { .. } => "v5-bad-atyp",
-        Req::V4 { .. } => "v4",
-        Req::V4a { .. } => "v4a",
+        Req::V4 { userid, .. } => {
+            if matches!(userid.len(), 0 | 255) {
+                nontrivial = true;
+            }
+            "v4"
+        }
+        Req::V4a { userid, domain, .. } => {
+            if matches!(domain.len(), 0 | 1 | 255) || matches!(userid.len(), 0 | 255) {
+                nontrivial = true;
+            }
+            "v4a"
+        }
         Req::Auth { .. } => "auth-methods",
     };
     classes.push(kind);
@@ -470,7 +480,12 @@ pub fn check_out(c: &OutCase) -> Outcome {
 // ------------------------------------------------------------ generators
 
 fn nonzero_bytes(max: usize) -> impl Strategy<Value = Vec<u8>> {
-    prop::collection::vec(1u8..=255, 0..=max)
+    // lengths biased to the boundaries of the 0..=255 range as well as short strings
+    prop_oneof![
+        5 => prop::collection::vec(1u8..=255, 0..=max.min(64)),
+        2 => prop::sample::select(vec![0usize, 1, 2, 63, 64, 127, 128, 253, 254, 255]).prop_flat_map(move |n| prop::collection::vec(1u8..=255, n.min(max)..=n.min(max))),
+        2 => prop::collection::vec(1u8..=255, 0..=max),
+    ]
 }
 fn domain() -> impl Strategy<Value = Vec<u8>> {
     prop_oneof![
@@ -490,8 +505,8 @@ fn req() -> impl Strategy<Value = Req> {
     prop_oneof![
         6 => (prop_oneof![9 => Just(5u8), 1 => any::<u8>()], any::<u8>(), any::<u8>(), addr5(), any::<u16>()).prop_map(|(ver, cmd, rsv, addr, port)| Req::V5 { ver, cmd, rsv, addr, port }),
         1 => (any::<u8>(), any::<u8>(), any::<u8>().prop_filter("known atyp", |a| ![1, 3, 4].contains(a)), prop::collection::vec(any::<u8>(), 0..8)).prop_map(|(cmd, rsv, atyp, tail)| Req::V5BadAtyp { cmd, rsv, atyp, tail }),
-        3 => (any::<u8>(), any::<u16>(), (1u8..=255, any::<u8>(), any::<u8>(), any::<u8>()), nonzero_bytes(64)).prop_map(|(cmd, port, ip, userid)| Req::V4 { cmd, port, ip: [ip.0, ip.1, ip.2, ip.3], userid }),
-        3 => (any::<u8>(), any::<u16>(), 1u8..=255, nonzero_bytes(64), nonzero_bytes(64)).prop_map(|(cmd, port, x, userid, domain)| Req::V4a { cmd, port, x, userid, domain }),
+        3 => (any::<u8>(), any::<u16>(), (1u8..=255, any::<u8>(), any::<u8>(), any::<u8>()), nonzero_bytes(255)).prop_map(|(cmd, port, ip, userid)| Req::V4 { cmd, port, ip: [ip.0, ip.1, ip.2, ip.3], userid }),
+        3 => (any::<u8>(), any::<u16>(), 1u8..=255, nonzero_bytes(255), nonzero_bytes(255)).prop_map(|(cmd, port, x, userid, domain)| Req::V4a { cmd, port, x, userid, domain }),
         1 => prop::collection::vec(any::<u8>(), 0..=255).prop_map(|methods| Req::Auth { methods }),
     ]
 }
@@ -525,7 +540,7 @@ fn outcase() -> impl Strategy<Value = OutCase> {
 }
 
 pub fn run(ctx: &Ctx, rep: &mut Report) {
-    rep.rule = "requests built by an independent RFC 1928 / SOCKS4(a) grammar (all commands, RSV bytes, address types, domain length 0..=255, user-id/domain strings over non-NUL bytes), \
+    rep.rule = "requests built by an independent RFC 1928 / SOCKS4(a) grammar (all commands, RSV bytes, address types, domain length 0..=255, user-id/domain strings of 0..=255 non-NUL bytes, boundary-biased), \
                 served in generated chunkings with trailing bytes, complete or cut at every possible point (EOF or pending reader); replies for all codes/addresses; UDP relay header \
                 build+parse. Non-trivial = domain length in {0,1,255}, an IPv6 address, a cut inside a variable-length field, 1-byte chunking, or a UDP payload <= 3 bytes. Distinct = distinct case value."
         .into();
